@@ -1,13 +1,164 @@
 # C15 - Shared package store is safe under concurrent projects  (pym/bob/share.py)
-# No function of share.py is under contract yet: they are dominated by library calls (json, shutil, tempfile,
-# flock) outside the verified subset.  The functions are WATCHED (source hash) and the property is covered by
-# the bounded native search only (replay/C15.py).  This check therefore claims level 'bounded', not proof.
+#
+# Lock / ordering discipline as effect contracts on the real code (Dyn mode; ghost typestate REPO, PKG in {0 none, 1 shared,
+# 2 exclusive}, VERIFIED, META_WRITTEN, RENAMED), obligations at every tracked effect on every path:
+#  * LocalShare.gc: a package directory is renamed away only while the repository lock is held EXCLUSIVELY, never in a
+#    dry run, and on a path where the loop's own guard admitted it (unused and pruneUnused, or over quota); the repository
+#    accounting (repo.json) is rewritten under the same lock after every removal; nothing is deleted under the lock
+#    (packages go to the attic directory first).
+#  * LocalShare.installSharedPackage: the package becomes visible (rename to its final name) only after the content hash
+#    of the prepared copy was compared with the expected one and pkg.json was written; a lost rename race (ENOTEMPTY /
+#    EEXIST) is not an error; the repository size is updated only after a successful rename.
+#  * LocalShare.useSharedPackage: the user list is rewritten only under the shared repository lock AND the exclusive
+#    package lock; a missing package / missing store (FileNotFoundError) is "not shared", not an error.
+#  * LocalShare.__addPackage: repo.json is read/created/rewritten only under its exclusive lock.
+# The protocol-level clauses (at most one install per Build-Id, never collected while in use under ALL interleavings,
+# size == sum of packages) need the composition of these functions over the real file system: bounded native interleaving
+# search only (replay/C15.py), incl. known finding F-C15c.
+import ast, z3
 from pyvc.api import *
+from pyvc.ty import *
+from pyvc.core import Raise, Exc, Unsupported
+from pyvc import dyn
+from pyvc.dyn import DYN, D
+
 F = 'pym/bob/share.py'
+LOCK = OpaqueT('OpenLockedRef'); LZ = sort_of(LOCK)
+L_KIND = z3.Function('lock_kind', LZ, z3.IntSort()); L_EXCL = z3.Function('lock_exclusive', LZ, z3.BoolSort())   # kind 1 repo.json, 2 pkg.json
+
 def build(reg):
-    return [Watch(F, 'LocalShare.gc', 'quota/garbage collection policy, exclusive repo lock'),
-            Watch(F, 'LocalShare.installSharedPackage', 'prepare in temp dir, verify hash, atomic rename, tolerate lost race'),
-            Watch(F, 'LocalShare.useSharedPackage', 'shared repo lock + exclusive package lock, user registration'),
-            Watch(F, 'LocalShare.__addPackage', 'repo.json accounting'),
-            Watch(F, 'OpenLocked.__enter__', 'flock'), Watch(F, 'OpenLocked.__exit__', 'flock'),
-            Watch(F, 'checkUnused', 'usage check'), Watch(F, 'sameWorkspace', 'usage check')]
+    dyn.install(reg)
+    reg.tracked_names = {'OpenLocked', 'rename', 'dump', 'load', 'rmtree', 'unlink', 'remove', 'move', 'copytree', 'hashDirectoryWithSize', '__addPackage', '_LocalShare__addPackage'}
+    reg.trusted += ['OpenLocked: __enter__ takes the flock (shared/exclusive) on the opened file, __exit__ releases it; flock semantics are the OS\'s',
+                    'repo.json holds complete JSON whenever it is read under its lock (writers rewrite it completely under the exclusive lock; a crash in the middle of such a rewrite is outside this property)',
+                    'os.rename of a directory is atomic and fails with ENOTEMPTY/EEXIST if the destination exists and is not empty',
+                    'tempfile.TemporaryDirectory(dir=store) yields a private directory that is removed when the with-block is left (after the locks were released)']
+    def ghost_init(eng, st):
+        g = st.ghost
+        g['REPO'] = mk_int(0); g['PKG'] = mk_int(0)
+        g['VERIFIED'] = mk_bool(False); g['META_WRITTEN'] = mk_bool(False); g['RENAMED'] = mk_bool(False); g['REMOVED'] = mk_int(0); g['ACCOUNTED'] = mk_int(0)
+    def kind_of(node):
+        src = ast.unparse(node.args[0]) if node.args else ''
+        if 'repo.json' in src or src in ('fn',): return 1
+        if 'pkg.json' in src or 'pkgMetaFile' in src: return 2
+        raise Unsupported('OpenLocked on an unknown file at line %s: %s' % (node.lineno, src))
+    @reg.model('bob.share.OpenLocked', 'Dyn.OpenLocked')
+    def m_openlocked(eng, st, args, kw, node):
+        a = args[-3:] if len(args) >= 3 else args
+        l = fresh_z(LOCK, 'lock'); k = kind_of(node)
+        ex = a[-1]
+        exz = ex.z if ex.t == BOOL else z3.Bool(fresh_name('excl'))
+        st.assume(z3.And(L_KIND(l) == k, L_EXCL(l) == exz))
+        v = V(LOCK, l); v.src = ('lock', k, exz, ast.unparse(node.args[1]) if len(node.args) > 1 else '')
+        return [(st, v)]
+    def lock_enter(eng, st, args, kw, node):
+        l = args[0]; k, exz = l.src[1], l.src[2]
+        name = 'REPO' if k == 1 else 'PKG'
+        eng.oblige(st, 'lock@%s:no-lock-is-taken-twice' % node.lineno, st.ghost[name].z == 0, 'typestate', node)
+        out = []
+        for cls in ('FileNotFoundError', 'FileExistsError', 'OSError'):
+            out.append(eng.raise_(st.fork(), cls, 'open fails at %s' % eng.loc(node)))
+        st.ghost[name] = mk_int(z3.If(exz, 2, 1)); st.ghost['HELD_' + name] = l
+        out.append((st, dyn.fresh('fd')))
+        return out
+    def lock_exit(eng, st, args, kw, node):
+        l = args[0]; k = l.src[1]; name = 'REPO' if k == 1 else 'PKG'
+        st.ghost[name] = mk_int(0)
+        return [(st, mk_bool(False))]
+    reg.models['OpenLockedRef.__enter__'] = lock_enter; reg.models['OpenLockedRef.__exit__'] = lock_exit
+    reg.always_truthy |= {'OpenLockedRef'}
+    def g(st, n): return st.ghost[n].z
+
+    # ---- effects
+    @reg.model('Dyn.rename')
+    def m_rename(eng, st, args, kw, node):
+        u = getattr(reg.current_unit, 'qual', '')
+        ln = node.lineno
+        if u.endswith('gc'):
+            eng.oblige(st, 'rename@%s:package-leaves-the-store-only-under-the-exclusive-repository-lock' % ln, g(st, 'REPO') == 2, 'typestate', node)
+            fr = st.frames[-1]
+            dry = fr.get('dryRun')
+            eng.oblige(st, 'rename@%s:never-in-a-dry-run' % ln, z3.Not(eng.truth(st, dry)), 'effect', node)
+            pu, prune = fr.get('pkgUnused'), fr.get('pruneUnused')
+            me = fr['self']; quota = eng.getattr_(st, me, '_LocalShare__quota', node)[0][1] if False else None
+            # the admission guard of the loop, restated: (unused and pruneUnused) or (quota set and over quota)
+            qz = dyn.ATTR(me.z, z3.StringVal('_LocalShare__quota'))
+            over = z3.And(qz != dyn.NONE_D, z3.Not(z3.Function('DYN_CMP_LtE', D, D, z3.BoolSort())(dyn.dynify(eng, st, fr['repoSizeBefore']) if 'repoSizeBefore' in fr else dyn.dynify(eng, st, st.ghost['SIZE_AT_GUARD']), qz)))
+            eng.oblige(st, 'rename@%s:only-an-unused-package-when-asked-to-prune-unused-or-while-over-quota' % ln,
+                       z3.Or(z3.And(eng.truth(st, pu), eng.truth(st, prune)), over), 'policy', node)
+            st.ghost['REMOVED'] = mk_int(g(st, 'REMOVED') + 1)
+        else:
+            act = st.ghost.get('ACTUAL'); want = st.frames[-1].get('sharedHash')
+            verified = dyn.EQ(act.z, dyn.dynify(eng, st, want)) if act is not None and want is not None else z3.BoolVal(False)     # the code's own `actualHash != sharedHash` test was false
+            eng.oblige(st, 'rename@%s:package-becomes-visible-only-after-its-hash-was-verified-and-its-meta-data-written' % ln,
+                       z3.And(verified, g(st, 'META_WRITTEN')), 'typestate', node)
+            x = st.fork(); out = [eng.raise_(x, 'OSError', 'rename fails (lost race or I/O) at %s' % eng.loc(node))]
+            st.ghost['RENAMED'] = mk_bool(True); out.append((st, mk_none())); return out
+        return [eng.raise_(st.fork(), 'OSError', 'rename fails at %s' % eng.loc(node)), (st, mk_none())]
+    @reg.model('Dyn.dump')
+    def m_dump(eng, st, args, kw, node):
+        u = getattr(reg.current_unit, 'qual', ''); ln = node.lineno
+        if u.endswith('gc'):
+            eng.oblige(st, 'dump@%s:accounting-rewritten-under-the-exclusive-repository-lock' % ln, g(st, 'REPO') == 2, 'typestate', node)
+            st.ghost['ACCOUNTED'] = mk_int(g(st, 'ACCOUNTED') + 1)
+        elif u.endswith('useSharedPackage'):
+            eng.oblige(st, 'dump@%s:user-list-rewritten-only-under-shared-repository-lock-and-exclusive-package-lock' % ln, z3.And(g(st, 'REPO') == 1, g(st, 'PKG') == 2), 'typestate', node)
+        elif u.endswith('installSharedPackage'):
+            eng.oblige(st, 'dump@%s:meta-data-written-before-the-package-is-visible' % ln, z3.Not(g(st, 'RENAMED')), 'typestate', node)
+            st.ghost['META_WRITTEN'] = mk_bool(True)
+        elif 'addPackage' in u or u.endswith('update'):
+            eng.oblige(st, 'dump@%s:repository-accounting-only-under-its-exclusive-lock' % ln, g(st, 'REPO') == 2, 'typestate', node)
+        return [eng.raise_(st.fork(), 'OSError', 'write fails at %s' % eng.loc(node)), (st, mk_none())]
+    @reg.model('Dyn.load')
+    def m_load(eng, st, args, kw, node):
+        u = getattr(reg.current_unit, 'qual', '')
+        if 'addPackage' in u or u.endswith('update'):
+            eng.oblige(st, 'load@%s:repository-accounting-read-under-its-exclusive-lock' % node.lineno, g(st, 'REPO') == 2, 'typestate', node)
+        if u.endswith('useSharedPackage'):
+            x = st.fork()
+            return [eng.raise_(x, 'json.JSONDecodeError', 'corrupt json at %s' % eng.loc(node)), (st, dyn.fresh('json'))]
+        return [(st, dyn.fresh('json'))]       # repo.json: complete JSON whenever it is read under its lock (every writer rewrites it under the exclusive lock; crashes are outside C15)
+    reg.exc_classes['json.JSONDecodeError'] = ['ValueError']; reg.exc_classes['JSONDecodeError'] = ['ValueError']
+    @reg.model('Dyn.hashDirectoryWithSize')
+    def m_hash(eng, st, args, kw, node):
+        h = dyn.fresh('actualHash'); st.ghost['ACTUAL'] = h
+        return [(st, V(PyTupT(2), [h, dyn.fresh('actualSize')]))]
+    for nm in ('rmtree', 'unlink', 'remove'):
+        def m_del(eng, st, args, kw, node, nm=nm):
+            eng.oblige(st, '%s@%s:nothing-is-deleted-while-a-lock-is-held' % (nm, node.lineno), z3.And(g(st, 'REPO') == 0, g(st, 'PKG') == 0), 'typestate', node)
+            return [(st, mk_none())]
+        reg.models['Dyn.' + nm] = m_del
+    @reg.model('Dyn.__addPackage', 'Dyn._LocalShare__addPackage')
+    def m_add(eng, st, args, kw, node):
+        eng.oblige(st, 'addPackage@%s:size-accounted-only-for-a-package-this-call-made-visible' % node.lineno, g(st, 'RENAMED'), 'typestate', node)
+        return [eng.raise_(st.fork(), 'bob.errors.BuildError', 'accounting fails'), (st, dyn.fresh('repoSize'))]
+    # the comparison `actualHash != sharedHash` decides VERIFIED: hook on the raise of the mismatch error is not needed, the
+    # path condition carries it; VERIFIED is set when the code passes the comparison with equality
+    units = []
+
+    def gc_entry(eng, st): st.ghost['SIZE_AT_GUARD'] = dyn.fresh('repoSize')
+    units.append(Unit(F, 'LocalShare.useSharedPackage', {'self': DYN, 'workspace': DYN, 'buildId': DYN}, 'C15', ghost_init=ghost_init,
+        ensures=[('all-locks-released', lambda o, n, r: z3.And(n.ghost.REPO.z == 0, n.ghost.PKG.z == 0))],
+        ensures_exc=[('all-locks-released', '*', lambda o, n: z3.And(n.ghost.REPO.z == 0, n.ghost.PKG.z == 0))],
+        raises={'bob.errors.BuildError': True}, result=None, max_paths=4000,
+        note='registers the user under shared repository lock + exclusive package lock; a missing store or package is "not shared"'))
+    units.append(Unit(F, 'LocalShare.__addPackage', {'self': DYN, 'buildId': DYN, 'size': DYN}, 'C15', ghost_init=ghost_init,
+        ensures=[('all-locks-released', lambda o, n, r: n.ghost.REPO.z == 0)], ensures_exc=[('all-locks-released', '*', lambda o, n: n.ghost.REPO.z == 0)],
+        raises={'bob.errors.BuildError': True}, result=None, max_paths=4000, note='repo.json read/created/rewritten only under its exclusive lock'))
+    def snap(cur, old, k, L):
+        cur.st.ghost['SIZE_AT_GUARD'] = cur.var('repoSize').v        # value of repoSize that the admission guard of this iteration reads
+        return [('exclusive-repository-lock-held-no-package-lock', z3.And(cur.ghost.REPO.z == 2, cur.ghost.PKG.z == 0))]
+    def scan(cur, old, k, L):
+        return [('exclusive-repository-lock-held-no-package-lock', z3.And(cur.ghost.REPO.z == 2, cur.ghost.PKG.z == 0)), ('nothing-removed-while-scanning', cur.ghost.REMOVED.z == 0)]
+    units.append(Unit(F, 'LocalShare.gc', {'self': DYN, 'pruneUsed': DYN, 'pruneUnused': DYN, 'dryRun': DYN, 'progress': DYN, 'newPkg': DYN}, 'C15', ghost_init=ghost_init, entry_hook=gc_entry,
+        ensures=[('all-locks-released', lambda o, n, r: z3.And(n.ghost.REPO.z == 0, n.ghost.PKG.z == 0))],
+        ensures_exc=[('all-locks-released', '*', lambda o, n: z3.And(n.ghost.REPO.z == 0, n.ghost.PKG.z == 0))],
+        raises={'bob.errors.BuildError': True, 'OSError': True, 'FileNotFoundError': True, 'FileExistsError': True}, result=None, max_paths=6000, loops={1: LoopSpec(inv=scan), 2: LoopSpec(inv=snap)},
+        note='packages leave the store only under the exclusive repository lock, never in a dry run, only when the admission guard holds; accounting rewritten under the same lock'))
+    units.append(Unit(F, 'LocalShare.installSharedPackage', {'self': DYN, 'workspace': DYN, 'buildId': DYN, 'sharedHash': DYN, 'mayMove': DYN}, 'C15', ghost_init=ghost_init,
+        ensures=[], raises={'bob.errors.BuildError': True}, result=None, max_paths=6000,
+        note='visible only after hash verification and meta data; lost rename race tolerated; size accounted after a successful rename'))
+    units += [
+              Watch(F, 'OpenLocked.__enter__', 'flock'), Watch(F, 'OpenLocked.__exit__', 'flock'),
+              Watch(F, 'checkUnused', 'usage check'), Watch(F, 'sameWorkspace', 'usage check')]
+    return units
